@@ -1,4 +1,5 @@
 import Spok.Lemmas.JsonReportScan
+import Spok.Lemmas.JsonReportValue
 import Spok.Lemmas.Utf8Enc
 import Spok.App
 /-! # C20 at the byte level of the `--json` report
@@ -92,6 +93,15 @@ theorem C20_report_of_strings (rs : List App.Result) :
     intro r hr
     obtain ⟨r', _, rfl⟩ := List.mem_map.mp hr
     exact resultB_text r')
+
+/-- the two levels of C20 are one: the bytes of the report are compact `json.Marshal` (`encJ`) of the document
+    `jsonDoc rs` that `Props/C20.lean` reasons about -/
+theorem C20_value_and_bytes_agree (rs : List App.Result) : encJ (App.jsonDoc rs) = encReport (rs.map resultB) :=
+  encJ_jsonDoc rs
+
+/-- … so reading the marshalled document of `Props/C20.lean` gives the results back -/
+theorem C20_document_bytes_read_back (rs : List App.Result) : decReport (encJ (App.jsonDoc rs)) = some (rs.map resultB) := by
+  rw [C20_value_and_bytes_agree]; exact C20_report_of_strings rs
 
 /-! ## the writer on concrete runs: the very bytes the real binary prints (checked by the kernel) -/
 
